@@ -38,6 +38,10 @@ class ContinueEx(Exception):
     pass
 
 
+class _GenKill(BaseException):
+    """unwinds the thread of a generator that is abandoned at the end of a path"""
+
+
 class PathEnd(Exception):
     """the current path stops here without reaching the function exit (loop back-edge)"""
 
@@ -181,6 +185,8 @@ class Ctx:
         self.work = work if work is not None else []
         self.fresh_n = 0
         self.writes = {}      # (id, field) -> True, pre-existing objects only
+        self.live_gens = []
+        self.write_log = []   # ids of all objects written to, in order (used to detect generator bodies with effects)
         self.entry_id = None   # allocation watermark at function entry
         self.assumed = set()   # names of external models / axioms used on this path
         self.steps = 0
@@ -209,6 +215,7 @@ class Ctx:
         return c
 
     def wcell(self, ref, field=None):
+        self.write_log.append(ref.id)
         c = self.local.get(ref.id)
         if c is None:
             b = self.world.base_heap[ref.id]
@@ -619,6 +626,22 @@ class Ctx:
         spec = self.loop_spec(s, fr)
         if spec is not None:
             return self.cut_for(s, fr, spec, it)
+        if isinstance(it, Ref) and isinstance(self.cell(it), HGenFn):
+            g = self.cell(it)
+            while True:
+                kind, v = self.gen_next(g)   # one item at a time: the loop body runs between the generator's steps
+                if kind == "stop":
+                    break
+                self.tick()
+                self.assign(s.target, v, fr)
+                try:
+                    self.exec_block(s.body, fr)
+                except BreakEx:
+                    return
+                except ContinueEx:
+                    continue
+            self.exec_block(s.orelse, fr)
+            return
         seq = self.iterate(it)
         for v in seq:
             self.tick()
@@ -1100,15 +1123,88 @@ class Ctx:
 
     def ex_Yield(self, e, fr):
         v = self.eval(e.value, fr) if e.value is not None else None
+        return self.do_yield(fr, v)
+
+    def do_yield(self, fr, v):
         f = fr
         while f is not None and f.yields is None:
             f = f.closure
         if f is None:
             raise Unsupported("yield outside generator")
+        g = getattr(f, "genobj", None)
+        if g is not None:
+            # hand the value to the consumer and wait until it asks for the next one
+            g.msg = ("value", v)
+            g.to_con.release()
+            g.to_gen.acquire()
+            if g.killed:
+                raise _GenKill()
+            return None
         if self.obligation_sink is not None:
             self.obligation_sink.on_yield(self, fr, v)
         f.yields.append(v)
         return None
+
+    def ex_YieldFrom(self, e, fr):
+        it = self.eval(e.value, fr)
+        if isinstance(it, Ref) and isinstance(self.cell(it), HGenFn):
+            while True:
+                kind, v = self.gen_next(self.cell(it))
+                if kind == "stop":
+                    break
+                self.do_yield(fr, v)
+            return None
+        for v in self.iterate(it):
+            self.do_yield(fr, v)
+        return None
+
+    def gen_next(self, g):
+        """resume the generator for one item: ('value', v) or ('stop', None); exceptions of its body are raised here"""
+        import threading
+        if g.done:
+            return ("stop", None)
+        if g.thread is None:
+            def run():
+                g.to_gen.acquire()
+                try:
+                    if g.killed:
+                        raise _GenKill()
+                    self.call_depth += 1
+                    try:
+                        self.exec_block(g.fv.node.body, g.fr)
+                    finally:
+                        self.call_depth -= 1
+                    g.msg = ("stop", None)
+                except ReturnEx:
+                    g.msg = ("stop", None)
+                except _GenKill:
+                    g.msg = ("killed", None)
+                except BaseException as ex:   # PyRaise, Infeasible, Unsupported, PathEnd ...: re-raised at the consumer
+                    g.msg = ("exc", ex)
+                g.done = True
+                g.to_con.release()
+            threading.stack_size(256 * 1024 * 1024)
+            g.thread = threading.Thread(target=run, daemon=True)
+            g.thread.start()
+        g.to_gen.release()
+        g.to_con.acquire()
+        kind, v = g.msg
+        if kind == "exc":
+            raise v
+        if kind == "killed":
+            return ("stop", None)
+        return (kind, v)
+
+    def kill_generators(self):
+        for g in self.live_gens:
+            if g.thread is not None and not g.done:
+                g.killed = True
+                g.to_gen.release()
+                g.thread.join(timeout=10)
+        self.live_gens = []
+
+    def loop_contracts_for(self, fv):
+        return any(k[0] == fv.qualname for k in (self.loop_contracts or {}))
 
     def ex_Call(self, e, fr):
         # zero-argument super()
@@ -1201,21 +1297,37 @@ class Ctx:
             self.raise_exc("TypeError", (f"{fv.qualname}() got an unexpected keyword argument {list(kw)[0]}",))
         return locs
 
-    def call_func(self, fv, args, kwargs, frame_out=None):
+    def call_func(self, fv, args, kwargs, frame_out=None, eager_generator=False):
         locs = self.bind(fv, args, kwargs)
         fr = Frame(fv.module, locs, fv, closure=fv.closure)
         if frame_out is not None:
             frame_out.append(fr)
+        if fv.is_gen and not eager_generator and not self.spec_mode and not self.loop_contracts_for(fv):
+            # called from interpreted code: a lazy generator object (the function under contract itself is run eagerly
+            # by the verifier, which checks its yields one by one)
+            fr.yields = []
+            g = HGenFn(fv, fr)
+            fr.genobj = g
+            self.live_gens.append(g)
+            return self.alloc(g)
         self.call_depth += 1
         if self.call_depth > 60:
             raise Unsupported("recursion depth (recursive function without contract?)")
         try:
             if fv.is_gen:
+                # generator functions are run to completion here and their values handed over as a list; that is the
+                # same as CPython's lazy evaluation only if the body has no effect on objects that existed before the
+                # call and does not raise -- otherwise the order of effects relative to the consumer matters
                 fr.yields = []
+                first_new, n0 = self.next_id, len(self.write_log)
                 try:
                     self.exec_block(fv.node.body, fr)
                 except ReturnEx:
                     pass
+                except PyRaise:
+                    raise Unsupported("generator function that raises (evaluated eagerly by the engine)")
+                if any(i < first_new for i in self.write_log[n0:]):
+                    raise Unsupported("generator function with side effects on existing objects (evaluated eagerly by the engine)")
                 return self.new_list(fr.yields)
             try:
                 self.exec_block(fv.node.body, fr)
